@@ -47,4 +47,7 @@ def check(repo, rep, tier):
     if ti:
         rp.r_sentence_loop(repo, rep, 'R9.3', ti)
         rp.r_callbacks(repo, rep, 'R9.2')  # the head direction used for scoring is that of the result at the stored position
+    from .c11 import r_chunks, r_gather
+    r_chunks(repo, rep, 'R9.3')            # the score reported for sentence i is computed from sentence i's matrices: the batch split neither skips nor repeats
+    r_gather(repo, rep, 'R9.3')            # ... and the pieces come back in the order they were cut
     rep.floor('agenda push sites', len(m.sites), 5)
